@@ -10,6 +10,8 @@ import (
 	"strings"
 
 	"golang.org/x/tools/go/ssa"
+
+	"gosym/smt"
 )
 
 var extTable = map[string]externalFn{}
@@ -980,21 +982,66 @@ func summarizedCall(fr *frame, fn *ssa.Function, kind string, args []value) valu
 	return mkSV(h, types.Uint32)
 }
 
+// lazyFold is the value of a summarised CRC state whose most recent input is a run of
+// concrete bytes not yet folded into the term: runs of concrete bytes are folded as ONE
+// uninterpreted application over a 64-bit digest of the run (independent of how the run was
+// split across write calls), symbolic bytes as one application each. This keeps the term for a
+// 50 KB record a handful of nodes instead of 50 000.
+type lazyFold struct {
+	base *smt.Term // 32-bit state before the pending run
+	pend []byte
+}
+
+func (l lazyFold) force() value {
+	b := l.base.B
+	h := l.base
+	if len(l.pend) > 0 {
+		d := uint64(14695981039346656037)
+		for _, c := range l.pend {
+			d = (d ^ uint64(c)) * 1099511628211
+		}
+		d ^= uint64(len(l.pend)) * 0x9e3779b97f4a7c15
+		h = b.UF("sum:crc32:run", 32, h, b.Const(64, d))
+	}
+	return mkSV(h, types.Uint32)
+}
+
+// forceLazy materialises a lazyFold (any other value is returned unchanged).
+func forceLazy(v value) value {
+	if l, ok := v.(lazyFold); ok {
+		return l.force()
+	}
+	return v
+}
+
 func crcFoldSummary(fr *frame, crc value, mem []value, n int) value {
 	c := fr.i.ctx
 	b := c.b
-	h, _ := termOf(b, crc)
+	var cur lazyFold
+	switch x := crc.(type) {
+	case lazyFold:
+		cur = lazyFold{base: x.base, pend: append([]byte(nil), x.pend...)}
+	default:
+		t, _ := termOf(b, crc)
+		cur = lazyFold{base: t}
+	}
 	if n > len(mem[:cap(mem)]) {
 		panic(memError("crc32_write reads past the end of the buffer"))
 	}
 	for _, x := range mem[:cap(mem)][:n] {
-		if _, bad := x.(poison); bad {
+		switch y := x.(type) {
+		case uint8:
+			cur.pend = append(cur.pend, y)
+		case sv:
+			h, _ := termOf(b, cur.force())
+			cur = lazyFold{base: b.UF("sum:crc32:step", 32, h, y.t)}
+		case poison:
 			panic(memError("read of freed C memory"))
+		default:
+			panic(engineAbort{psEngineError, "crc over non-byte memory"})
 		}
-		tx, _ := termOf(b, x)
-		h = b.UF("sum:crc32:step", 32, h, tx)
 	}
-	return mkSV(h, types.Uint32)
+	return cur
 }
 
 var debugLog = os.Getenv("GOSYM_LOG") != ""
